@@ -632,6 +632,25 @@ def run(ctx: Any, prog: Program) -> None:
             elif isinstance(x, ast.Call) and any(isinstance(y, ast.Name) and y.id in content_vars for y in ast.walk(x)) and not any(x is z for a in atoms for z in ast.walk(a)):
                 atoms.append(x)
         for a in atoms:
+            # a one-expression module helper (`_has_newline(text)`: `'\n' in text or '\r' in text`) stands for the tests it makes
+            if isinstance(a, ast.Call) and isinstance(a.func, ast.Name) and len(a.args) == 1 and isinstance(a.args[0], ast.Name) and not a.keywords:
+                try:
+                    hf_ = kv.func(a.func.id)
+                except AnalysisError:
+                    hf_ = None
+                if hf_ is not None and hf_.args.args:
+                    hb_ = [b for b in hf_.body if not (isinstance(b, ast.Expr) and isinstance(b.value, ast.Constant))]
+                    hp_ = hf_.args.args[0].arg
+                    if len(hb_) == 1 and isinstance(hb_[0], ast.Return) and hb_[0].value is not None:
+                        cmps_ = [c for c in ast.walk(hb_[0].value) if isinstance(c, ast.Compare)]
+                        plain_ = isinstance(hb_[0].value, (ast.BoolOp, ast.Compare)) and (not isinstance(hb_[0].value, ast.BoolOp) or isinstance(hb_[0].value.op, ast.Or)) and bool(cmps_) and \
+                            all(len(c.ops) == 1 and isinstance(c.ops[0], ast.In) and isinstance(c.left, ast.Constant) and c.left.value in ('\n', '\r') and dotted(c.comparators[0]) == hp_ for c in cmps_) \
+                            and not any(isinstance(x, ast.Call) for x in ast.walk(hb_[0].value))
+                        if plain_:
+                            for c in cmps_:
+                                n_rej += 1
+                                ctx.check('C01.R7', True, kv, a, 'line break test', text=f'rejects {c.left.value!r} in {a.args[0].id}')
+                            continue
             n_rej += 1
             if isinstance(a, ast.Compare) and len(a.ops) == 1 and isinstance(a.ops[0], ast.In) and isinstance(a.left, ast.Constant) and a.left.value in ('\n', '\r') and isinstance(a.comparators[0], ast.Name):
                 ctx.check('C01.R7', True, kv, a, 'line break test', text=f'rejects {a.left.value!r} in {a.comparators[0].id}')
